@@ -110,88 +110,142 @@ theorem lookup_mem {α β : Type} [BEq α] [LawfulBEq α] (l : List (α × β)) 
 
 /-! ### the command-map key -/
 
-def NoComma (s : Str) : Prop := ∀ ch ∈ s, ch ≠ ','
+/-- one escaped character is a prefix code: it determines the character and what follows -/
+theorem esc1_cancel (c d : Char) (x y : Str) (h : esc1 c ++ x = esc1 d ++ y) : c = d ∧ x = y := by
+  unfold esc1 at h
+  by_cases hc1 : c = ','
+  · by_cases hd1 : d = ','
+    · subst hc1 hd1; simp at h; exact ⟨rfl, h⟩
+    · by_cases hd2 : d = '\\'
+      · subst hc1 hd2; simp at h
+      · rw [if_pos hc1, if_neg hd1, if_neg hd2] at h
+        simp only [List.cons_append, List.nil_append, List.cons.injEq] at h
+        exact absurd h.1.symm hd2
+  · by_cases hc2 : c = '\\'
+    · by_cases hd1 : d = ','
+      · subst hc2 hd1; simp at h
+      · by_cases hd2 : d = '\\'
+        · subst hc2 hd2; simp at h; exact ⟨rfl, h⟩
+        · rw [if_neg hc1, if_pos hc2, if_neg hd1, if_neg hd2] at h
+          simp only [List.cons_append, List.nil_append, List.cons.injEq] at h
+          exact absurd h.1.symm hd2
+    · rw [if_neg hc1, if_neg hc2] at h
+      by_cases hd1 : d = ','
+      · rw [if_pos hd1] at h
+        simp only [List.cons_append, List.nil_append, List.cons.injEq] at h
+        exact absurd h.1 hc2
+      · by_cases hd2 : d = '\\'
+        · rw [if_neg hd1, if_pos hd2] at h
+          simp only [List.cons_append, List.nil_append, List.cons.injEq] at h
+          exact absurd h.1 hc2
+        · rw [if_neg hd1, if_neg hd2] at h
+          simp only [List.cons_append, List.nil_append, List.cons.injEq] at h
+          exact h
 
-/-- a comma-free prefix followed by a comma splits uniquely -/
-theorem split_comma : ∀ (a a' r r' : Str), NoComma a → NoComma a' →
-    a ++ ',' :: r = a' ++ ',' :: r' → a = a' ∧ r = r' := by
+/-- an escaped character never starts with a bare comma -/
+theorem esc1_ne_comma (c : Char) (x y : Str) : esc1 c ++ x ≠ ',' :: y := by
+  unfold esc1
+  by_cases hc1 : c = ','
+  · rw [if_pos hc1]; simp
+  · by_cases hc2 : c = '\\'
+    · rw [if_neg hc1, if_pos hc2]; simp
+    · rw [if_neg hc1, if_neg hc2]
+      simp only [List.cons_append, List.nil_append, ne_eq, List.cons.injEq, not_and]
+      intro h; exact absurd h hc1
+
+/-- an escaped part followed by a separating comma splits uniquely — for ANY strings -/
+theorem split_esc : ∀ (a a' r r' : Str), esc a ++ ',' :: r = esc a' ++ ',' :: r' → a = a' ∧ r = r' := by
   intro a
   induction a with
   | nil =>
-    intro a' r r' _ ha' h
+    intro a' r r' h
     cases a' with
-    | nil => simp at h; exact ⟨rfl, h⟩
-    | cons x xs =>
-      simp only [List.nil_append, List.cons_append, List.cons.injEq] at h
-      exact absurd h.1.symm (ha' x (List.mem_cons_self ..))
+    | nil => simp [esc] at h; exact ⟨rfl, h⟩
+    | cons y ys =>
+      simp only [esc, List.nil_append, List.append_assoc] at h
+      exact absurd h.symm (esc1_ne_comma y _ _)
   | cons x xs ih =>
-    intro a' r r' ha ha' h
+    intro a' r r' h
     cases a' with
     | nil =>
-      simp only [List.nil_append, List.cons_append, List.cons.injEq] at h
-      exact absurd h.1 (ha x (List.mem_cons_self ..))
+      simp only [esc, List.nil_append, List.append_assoc] at h
+      exact absurd h (esc1_ne_comma x _ _)
     | cons y ys =>
-      simp only [List.cons_append, List.cons.injEq] at h
-      obtain ⟨rfl, h2⟩ := h
-      obtain ⟨e1, e2⟩ := ih ys r r' (fun ch hc => ha ch (List.mem_cons_of_mem _ hc))
-        (fun ch hc => ha' ch (List.mem_cons_of_mem _ hc)) h2
+      simp only [esc, List.append_assoc] at h
+      obtain ⟨rfl, h2⟩ := esc1_cancel x y _ _ h
+      obtain ⟨e1, e2⟩ := ih ys r r' h2
       exact ⟨by rw [e1], e2⟩
 
-theorem noComma_of_append_comma (a r : Str) : ¬ NoComma (a ++ ',' :: r) := by
-  intro h
-  exact h ',' (by simp) rfl
+/-- an escaped string contains no separating comma: it is never "escaped part, comma, rest" -/
+theorem esc_ne_split : ∀ (w a z : Str), esc w ≠ esc a ++ ',' :: z := by
+  intro w
+  induction w with
+  | nil =>
+    intro a z h
+    cases a with
+    | nil => simp [esc] at h
+    | cons y ys =>
+      simp only [esc, List.append_assoc] at h
+      unfold esc1 at h
+      split at h <;> (try split at h) <;> simp at h
+  | cons x xs ih =>
+    intro a z h
+    cases a with
+    | nil =>
+      simp only [esc, List.nil_append] at h
+      have := esc1_ne_comma x (esc xs) z
+      exact this h
+    | cons y ys =>
+      simp only [esc, List.append_assoc] at h
+      obtain ⟨_, h2⟩ := esc1_cancel x y _ _ h
+      exact ih ys z h2
 
-/-- **key_injective**: the rendered key determines (tag, address, command) when none of them
-    contains a comma. -/
+theorem esc_append (a b : Str) : esc (a ++ b) = esc a ++ esc b := by
+  induction a with
+  | nil => rfl
+  | cons x xs ih => simp [esc, ih]
+
+theorem esc_injective : ∀ (a b : Str), esc a = esc b → a = b := by
+  intro a b h
+  have : esc a ++ ',' :: [] = esc b ++ ',' :: [] := by rw [h]
+  exact (split_esc a b [] [] this).1
+
+/-- **key_injective**: the rendered key determines (tag, address, command) — for all strings. -/
 theorem cmdKey_injective (tag addr cmd tag' addr' cmd' : Str)
-    (ht : NoComma tag) (ha : NoComma addr) (hc : NoComma cmd)
-    (ht' : NoComma tag') (ha' : NoComma addr') (hc' : NoComma cmd')
     (h : cmdKey tag addr cmd = cmdKey tag' addr' cmd') : tag = tag' ∧ addr = addr' ∧ cmd = cmd' := by
+  have tail_eq : ∀ (c c' : Str), '<' :: (esc c ++ ['>', '}']) = '<' :: (esc c' ++ ['>', '}']) → c = c' := by
+    intro c c' hh
+    simp only [List.cons.injEq, true_and] at hh
+    exact esc_injective _ _ (List.append_cancel_right hh)
+  -- the untagged remainder `<cmd>}` is itself an escaped string, so it has no separating comma
+  have no_sep : ∀ (c a z : Str), '<' :: (esc c ++ ['>', '}']) ≠ esc a ++ ',' :: z := by
+    intro c a z hh
+    have e : '<' :: (esc c ++ ['>', '}']) = esc ('<' :: (c ++ ['>', '}'])) := by
+      simp [esc, esc1, esc_append]
+    rw [e] at hh
+    exact esc_ne_split _ _ _ hh
   unfold cmdKey at h
   by_cases h1 : tag ≠ []
   · by_cases h2 : tag' ≠ []
     · rw [if_pos h1, if_pos h2] at h
       simp only [List.cons.injEq, true_and] at h
-      obtain ⟨e1, r1⟩ := split_comma _ _ _ _ ht ht' h
-      obtain ⟨e2, r2⟩ := split_comma _ _ _ _ ha ha' r1
-      simp only [List.cons.injEq, true_and] at r2
-      exact ⟨e1, e2, List.append_cancel_right r2⟩
-    · -- tagged vs untagged: the tagged key has one comma more
-      rw [if_pos h1, if_neg h2] at h
+      obtain ⟨e1, r1⟩ := split_esc _ _ _ _ h
+      obtain ⟨e2, r2⟩ := split_esc _ _ _ _ r1
+      exact ⟨e1, e2, tail_eq _ _ r2⟩
+    · rw [if_pos h1, if_neg h2] at h
       simp only [List.cons.injEq, true_and] at h
-      obtain ⟨_, r1⟩ := split_comma _ _ _ _ ht ha' h
-      exfalso
-      have hn : NoComma ('<' :: (cmd' ++ ['>', '}'])) := by
-        intro ch hch
-        simp only [List.mem_cons, List.mem_append, List.mem_nil_iff, or_false] at hch
-        rcases hch with rfl | hch | rfl | rfl
-        · decide
-        · exact hc' ch hch
-        · decide
-        · decide
-      rw [← r1] at hn
-      exact noComma_of_append_comma _ _ hn
+      obtain ⟨_, r1⟩ := split_esc _ _ _ _ h
+      exact absurd r1.symm (no_sep _ _ _)
   · by_cases h2 : tag' ≠ []
     · rw [if_neg h1, if_pos h2] at h
       simp only [List.cons.injEq, true_and] at h
-      obtain ⟨_, r1⟩ := split_comma _ _ _ _ ha ht' h
-      exfalso
-      have hn : NoComma ('<' :: (cmd ++ ['>', '}'])) := by
-        intro ch hch
-        simp only [List.mem_cons, List.mem_append, List.mem_nil_iff, or_false] at hch
-        rcases hch with rfl | hch | rfl | rfl
-        · decide
-        · exact hc ch hch
-        · decide
-        · decide
-      rw [r1] at hn
-      exact noComma_of_append_comma _ _ hn
+      obtain ⟨_, r1⟩ := split_esc _ _ _ _ h
+      exact absurd r1 (no_sep _ _ _)
     · have e1 : tag = [] := by simpa using h1
       have e2 : tag' = [] := by simpa using h2
       rw [if_neg h1, if_neg h2] at h
       simp only [List.cons.injEq, true_and] at h
-      obtain ⟨e3, r2⟩ := split_comma _ _ _ _ ha ha' h
-      simp only [List.cons.injEq, true_and] at r2
-      exact ⟨by rw [e1, e2], e3, List.append_cancel_right r2⟩
+      obtain ⟨e3, r2⟩ := split_esc _ _ _ _ h
+      exact ⟨by rw [e1, e2], e3, tail_eq _ _ r2⟩
 
 end Cedar.SC
